@@ -235,6 +235,8 @@ let dmeta_handler args =
   | _ -> "?bad-DMETA"
 
 let () =
+  (* DNEG <name> <schema>: does the model's acceptance predicate take the definition? *)
+  register "DNEG" (fun args -> match args with _ :: st :: _ -> if schema_ok (fst (parse_schema st)) then "accepted" else "rejected" | _ -> "?bad-DNEG");
   register "DENC" denc_handler;
   register "DLEN" dlen_handler;
   register "DDEC" ddec_handler;
